@@ -754,20 +754,27 @@ struct reb_ode* reb_ode_create(struct reb_simulation* r, unsigned int length){
     return ode;
 }
 
+void reb_integrator_bs_init(struct reb_simulation* r){
+    // If the particle number changed since the N-body ode was set up (e.g. a merger in the last timestep), the ode
+    // has to be recreated and the next step is a first step. Doing this here (called at the beginning of each step
+    // and whenever a simulation is saved, copied or compared) makes sure first_or_last_step is already 1 in a
+    // binary file, so that a restored simulation continues exactly like the original.
+    struct reb_integrator_bs* ri_bs = &(r->ri_bs);
+    if (ri_bs->nbody_ode != NULL && ri_bs->nbody_ode->length != r->N*3*2){
+        reb_ode_free(ri_bs->nbody_ode);
+        ri_bs->nbody_ode = NULL;
+        ri_bs->first_or_last_step = 1;
+    }
+}
+
 void reb_integrator_bs_part2(struct reb_simulation* r){
     struct reb_integrator_bs* ri_bs = &(r->ri_bs);
     
     unsigned int nbody_length = r->N*3*2;
+    // Check if particle numbers changed, if so delete the ode (and set first_or_last_step).
+    reb_integrator_bs_init(r);
     // Keep first_or_last_step (e.g. restored from a binary file) if the ode just needs to be allocated.
     int first_or_last_step = ri_bs->first_or_last_step;
-    // Check if particle numbers changed, if so delete and recreate ode.
-    if (ri_bs->nbody_ode != NULL){ 
-        if (ri_bs->nbody_ode->length != nbody_length){
-            reb_ode_free(ri_bs->nbody_ode);
-            ri_bs->nbody_ode = NULL;
-            first_or_last_step = 1;
-        }
-    }
     if (ri_bs->nbody_ode == NULL){ 
         ri_bs->nbody_ode = reb_ode_create(r, nbody_length);
         ri_bs->nbody_ode->derivatives = nbody_derivatives;
